@@ -1241,4 +1241,49 @@ func ruleSortSign(c *Ctx, r *R) {
 	if n == 0 {
 		r.undecided("unresolved:sign-helper", c.Pos(sortCompare.Pos()), "UNRESOLVED: sortCompare calls no Value -> int helper")
 	}
+	// 15.4.4.11 SortCompare steps 5-12: absent elements and undefined values are ordered before the comparison function is
+	// consulted (it never sees undefined). The call of the comparison function (the *object parameter) is dominated by two
+	// [[HasProperty]] tests and by two IsDefined / IsUndefined tests.
+	var cmpCall *ssa.Call
+	var hasProps, defTests []*ssa.Call
+	for _, b := range sortCompare.Blocks {
+		for _, ins := range b.Instrs {
+			call, ok := ins.(*ssa.Call)
+			if !ok {
+				continue
+			}
+			callee := call.Call.StaticCallee()
+			if callee == nil {
+				continue
+			}
+			switch callee.Name() {
+			case "call":
+				if len(call.Call.Args) > 0 {
+					if p, ok := normCell(call.Call.Args[0]).(*ssa.Parameter); ok && p.Parent() == sortCompare {
+						cmpCall = call
+					}
+				}
+			case "hasProperty":
+				hasProps = append(hasProps, call)
+			case "IsDefined", "IsUndefined":
+				defTests = append(defTests, call)
+			}
+		}
+	}
+	if cmpCall == nil {
+		r.undecided("unresolved:comparefn-call", c.Pos(sortCompare.Pos()), "UNRESOLVED: sortCompare does not call its comparison function parameter")
+		return
+	}
+	dom := func(list []*ssa.Call) int {
+		k := 0
+		for _, x := range list {
+			if x.Block().Dominates(cmpCall.Block()) {
+				k++
+			}
+		}
+		return k
+	}
+	r.check(dom(hasProps) >= 2 && dom(defTests) >= 2, "comparefn-after-undefined", c.Pos(instrPos(cmpCall)),
+		"the comparison function is called only after both elements were tested for presence and for undefined",
+		fmt.Sprintf("sortCompare calls the comparison function before it has tested both elements for presence (%d of 2 tests dominate the call) and for undefined (%d of 2): the function sees `undefined`, and holes / undefined values are ordered by whatever it returns instead of last (`[3,undefined,1].sort(function(x,y){return x-y})`, ES5 15.4.4.11 SortCompare steps 5-12)", dom(hasProps), dom(defTests)))
 }
